@@ -138,6 +138,7 @@ def step (es : Option ES) (w : List String) : Option ES × String :=
   match w with
   | "scenario" :: _ => (es, "ok")
   | "devlist" :: _ => (none, "ok")      -- device-list probe of the harness (not modelled here)
+  | "probe" :: _ => (none, "ok")        -- TP / slot / pending-information probes of the harness (oracle only)
   | "reset0" :: _ =>
     match stepH none w with
     | (some h, out) =>
